@@ -62,6 +62,8 @@ TABLE = [
     ("skips only the digits of the leading class", "C05 C02", "`[01]+[ab]+[a]+` on 1024 x \"0\" + \"k\": quadratic Match once subset classes stopped skipping at all; `[0-5]+a` on \"65a\""),
     ("prefilter over the common suffix", "C01 C11", "`.*(?:bab|abb)` on \"abb\": Match false, FindIndex [0 3] (candidates were starts of bab/abb, the reverse scan began one byte after them)"),
     ("only accepts branches it can match exactly", "C19 C02", "`^([à-ÿ]+|x\\d)` on \"x1\" = [0 1]; `^(foo|bar|baz)` matched \"bax\""),
+    ("verifies a candidate line with the anchored forward DFA", "C02 C04 C19", "`(?m)^/.*\\.php` on \"/a.php/b.php\": [0 6] and a bogus second match [6 12] instead of [0 12]; `(?m)^/.+\\.php` on \"/.php\": a match where there is none (prefix-literal fast path; the repaired driver is the theorem of ReverseSuffixML.tla, the old one its negative control)"),
+    ("only selected when a match cannot span lines", "C02 C19", "`(?m)^ab(?s:.)*\\.b` on \"ab\\n.b\": no match (regexp [0 5]); `(?m)^(?s:.)*ab` on \"\\naab\": [1 4] instead of [0 4] (predicted by TLC on the family MLS of MC_ReverseSuffixML)"),
 ]
 
 
